@@ -5,7 +5,7 @@
     the field elements 1+1, ... here.  [x**2] is [x*x].  [1/z] is [fdiv 1 z].  The Weierstrass
     affine identity [()] is [None].  Field equality tests ([==]) go through [eqb]. *)
 Require Import MPyC.Field MPyC.Zp MPyC.Group.
-From Coq Require Import Bool Lia Znumtheory.
+From Coq Require Import Bool Lia Znumtheory NsatzTactic.
 
 Section Defs.
 Variable K : Ops.
@@ -300,3 +300,561 @@ Definition z_wj_norm P := out3 (wj_norm zeqb (in3 P)).
 Definition z_wj_rep P n :=
   out3 (rep (wj_add zeqb) wj_dbl wj_inv wp_id (in3 P) n).
 End ZpExec.
+
+(** ------------------------------------------------------------------------------------------
+    Theorems over an abstract field (polynomial identities by [field] / [nsatz]; nonvanishing
+    side conditions are hypotheses).  [feqb] is the decidable equality of the field. *)
+Ltac nsz_unf := cbv [equality eq_notation addition add_notation multiplication mul_notation subtraction sub_notation opposite opp_notation zero zero_notation one one_notation Morphisms.Proper Morphisms.respectful] in *.
+Section Thms.
+Variable K : FieldT.
+Add Field KF2 : (fth K).
+Notation "0" := (f0 K). Notation "1" := (f1 K).
+Infix "+" := (fadd K). Infix "*" := (fmul K). Infix "-" := (fsub K). Infix "/" := (fdiv K).
+Notation "- x" := (fopp K x).
+
+Definition feqb (a b : K) : bool := if feq_dec K a b then true else false.
+Lemma feqb_spec a b : feqb a b = true <-> a = b.
+Proof. unfold feqb. destruct (feq_dec K a b); split; auto; discriminate. Qed.
+Lemma feqb_false a b : feqb a b = false <-> a <> b.
+Proof. unfold feqb. destruct (feq_dec K a b); split; auto; try discriminate. intros H; contradiction. Qed.
+
+(* nsatz instances *)
+Global Instance K_ops : @Ring_ops K 0 1 (fadd K) (fmul K) (fsub K) (fopp K) (@eq K) := {}.
+Global Instance K_ring : Ring (Ro:=K_ops).
+Proof.
+  constructor; try apply eq_equivalence; nsz_unf; intros; subst; try reflexivity; ring.
+Defined.
+Global Instance K_cring : Cring (Rr:=K_ring).
+Proof. intros a b. nsz_unf. ring. Defined.
+Global Instance K_idom : Integral_domain (Rcr:=K_cring).
+Proof.
+  constructor.
+  - intros a b H. nsz_unf. destruct (feq_dec K a 0) as [E|E]; [left; exact E|right].
+    eapply fmul_eq0; eauto.
+  - nsz_unf. apply f1_neq_f0.
+Defined.
+
+
+Lemma pair_eq {A B} (a a' : A) (b b' : B) : a = a' -> b = b' -> (a, b) = (a', b').
+Proof. intros; subst; reflexivity. Qed.
+Ltac peq := repeat apply pair_eq.
+Ltac neq0 := repeat split; try assumption; repeat (apply fmul_neq0; try assumption).
+
+(* ---------- Edwards ---------- *)
+Theorem eda_add_comm (a d : K) (P Q : pt2 K) : eda_add a d P Q = eda_add a d Q P.
+Proof.
+  destruct P as [x1 y1], Q as [x2 y2]. cbv [eda_add].
+  replace (d * (x2 * x1) * (y2 * y1)) with (d * (x1 * x2) * (y1 * y2)) by ring.
+  f_equal; ring.
+Qed.
+
+Theorem eda_add_id_r (a d : K) (P : pt2 K) : eda_add a d P eda_id = P.
+Proof.
+  destruct P as [x y]. cbv [eda_add eda_id].
+  replace (d * (x * 0) * (y * 1)) with 0 by ring.
+  f_equal; field; exact (f1_neq_f0 K).
+Qed.
+
+Theorem eda_add_inv_r (a d x y : K) :
+  a * (x * x) + y * y = 1 + d * (x * x) * (y * y) ->
+  (let E := d * (x * - x) * (y * y) in 1 - E * E <> 0) ->
+  eda_add a d (x, y) (eda_inv (x, y)) = eda_id.
+Proof.
+  intros Hc HE. cbv [eda_add eda_inv eda_id] in *. cbv zeta in HE.
+  f_equal; (field_simplify_eq; [|exact HE]); nsatz.
+Qed.
+
+Theorem eda_add_closed (a d x1 y1 x2 y2 : K) :
+  a * (x1 * x1) + y1 * y1 = 1 + d * (x1 * x1) * (y1 * y1) ->
+  a * (x2 * x2) + y2 * y2 = 1 + d * (x2 * x2) * (y2 * y2) ->
+  (let E := d * (x1 * x2) * (y1 * y2) in 1 - E * E <> 0) ->
+  let '(x3, y3) := eda_add a d (x1, y1) (x2, y2) in
+  a * (x3 * x3) + y3 * y3 = 1 + d * (x3 * x3) * (y3 * y3).
+Proof.
+  intros H1 H2 HE. cbv [eda_add]. cbv zeta in HE.
+  field_simplify_eq; [|exact HE]. nsatz.
+Qed.
+
+Theorem edp_add_refines (a d x1 y1 z1 x2 y2 z2 : K) :
+  z1 <> 0 -> z2 <> 0 ->
+  (let E := d * ((x1 / z1) * (x2 / z2)) * ((y1 / z1) * (y2 / z2)) in 1 - E * E <> 0) ->
+  let '(x3, y3, z3) := edp_add a d (x1, y1, z1) (x2, y2, z2) in
+  z3 <> 0 /\ edp_aff (x3, y3, z3) = eda_add a d (edp_aff (x1, y1, z1)) (edp_aff (x2, y2, z2)).
+Proof.
+  intros Hz1 Hz2 HE. cbv zeta in HE. cbv [edp_add edp_aff eda_add].
+  assert (Hz3 : (z1 * z2 * (z1 * z2) - d * (x1 * x2) * (y1 * y2)) * (z1 * z2 * (z1 * z2) + d * (x1 * x2) * (y1 * y2)) <> 0).
+  { intros H. apply HE.
+    transitivity (((z1 * z2 * (z1 * z2) - d * (x1 * x2) * (y1 * y2)) * (z1 * z2 * (z1 * z2) + d * (x1 * x2) * (y1 * y2))) / (z1*z1*z1*z1*z2*z2*z2*z2)).
+    - field. split; assumption.
+    - rewrite H. field. split; assumption. }
+  split; [exact Hz3|].
+  f_equal; field; repeat split; auto; intro Hq; apply Hz3; nsatz.
+Qed.
+
+Theorem ede_dbl_eq_add (d : K) (P : pt4 K) : ede_dbl d P = ede_add d P P.
+Proof. destruct P as [[[x y] z] t]. cbv [ede_dbl ede_add]. peq; ring. Qed.
+
+Lemma div_intro (t z w : K) : z <> 0 -> t * z = w -> t = w / z.
+Proof. intros Hz H. rewrite <- H. field. exact Hz. Qed.
+
+Theorem ede_add_refines (d x1 y1 z1 t1 x2 y2 z2 t2 : K) :
+  c2 K <> 0 -> z1 <> 0 -> z2 <> 0 -> t1 * z1 = x1 * y1 -> t2 * z2 = x2 * y2 ->
+  (let E := d * ((x1 / z1) * (x2 / z2)) * ((y1 / z1) * (y2 / z2)) in 1 - E * E <> 0) ->
+  let '(x3, y3, z3, t3) := ede_add d (x1, y1, z1, t1) (x2, y2, z2, t2) in
+  z3 <> 0 /\ t3 * z3 = x3 * y3 /\
+  ede_aff (x3, y3, z3, t3) = eda_add (- (1)) d (ede_aff (x1, y1, z1, t1)) (ede_aff (x2, y2, z2, t2)).
+Proof.
+  intros H2 Hz1 Hz2 Ht1 Ht2 HE. cbv zeta in HE.
+  apply div_intro in Ht1; [|exact Hz1]. apply div_intro in Ht2; [|exact Hz2]. subst t1 t2.
+  assert (HP : (z1 * z2 * (z1 * z2) - d * (x1 * x2) * (y1 * y2)) * (z1 * z2 * (z1 * z2) + d * (x1 * x2) * (y1 * y2)) <> 0).
+  { intros H. apply HE.
+    transitivity (((z1 * z2 * (z1 * z2) - d * (x1 * x2) * (y1 * y2)) * (z1 * z2 * (z1 * z2) + d * (x1 * x2) * (y1 * y2))) / (z1*z1*z1*z1*z2*z2*z2*z2)).
+    - field. split; assumption.
+    - rewrite H. field. split; assumption. }
+  cbv [ede_add ede_aff eda_add c2] in *.
+  split; [|split].
+  - intros H. apply HP.
+    transitivity ((z1 * z2 * (z1 * z2)) / ((1+1)*(1+1)) * ((1 + 1) * z1 * z2 - (1 + 1) * d * (x1 * y1 / z1) * (x2 * y2 / z2)) * ((1 + 1) * z1 * z2 + (1 + 1) * d * (x1 * y1 / z1) * (x2 * y2 / z2))).
+    + field. neq0.
+    + rewrite <- (Rmul_assoc (F_R (fth K))). rewrite H. ring.
+  - ring.
+  - f_equal; field; repeat split; auto; intro Hq; apply HP; nsatz.
+Qed.
+
+Theorem edp_inv_refines (x y z : K) : z <> 0 -> edp_aff (edp_inv (x, y, z)) = eda_inv (edp_aff (x, y, z)).
+Proof. intros Hz. cbv [edp_aff edp_inv eda_inv]. peq; field; exact Hz. Qed.
+
+Theorem ede_inv_refines (x y z t : K) : z <> 0 -> ede_aff (ede_inv (x, y, z, t)) = eda_inv (ede_aff (x, y, z, t)).
+Proof. intros Hz. cbv [ede_aff ede_inv eda_inv]. peq; field; exact Hz. Qed.
+
+Theorem edp_norm_spec (x y z : K) : z <> 0 ->
+  edp_norm (x, y, z) = (x / z, y / z, 1) /\ edp_aff (edp_norm (x, y, z)) = edp_aff (x, y, z) /\
+  edp_norm (edp_norm (x, y, z)) = edp_norm (x, y, z).
+Proof.
+  intros Hz. cbv [edp_norm edp_aff]. repeat split; peq; field; neq0; exact (f1_neq_f0 K).
+Qed.
+
+Theorem ede_norm_spec (x y z t : K) : z <> 0 ->
+  ede_norm (x, y, z, t) = (x / z, y / z, 1, (x / z) * (y / z)) /\
+  ede_aff (ede_norm (x, y, z, t)) = ede_aff (x, y, z, t) /\
+  ede_norm (ede_norm (x, y, z, t)) = ede_norm (x, y, z, t).
+Proof.
+  intros Hz. cbv [ede_norm ede_aff]. repeat split; peq; field; neq0; exact (f1_neq_f0 K).
+Qed.
+
+Lemma feqb_sym (a b : K) : feqb a b = feqb b a.
+Proof. unfold feqb. destruct (feq_dec K a b), (feq_dec K b a); congruence. Qed.
+Lemma feqb_refl (a : K) : feqb a a = true.
+Proof. apply feqb_spec; reflexivity. Qed.
+
+Lemma cross_eq (x1 z1 x2 z2 : K) : z1 <> 0 -> z2 <> 0 -> (x1 * z2 = x2 * z1 <-> x1 / z1 = x2 / z2).
+Proof.
+  intros H1 H2. split; intros H.
+  - transitivity (x1 * z2 / (z1 * z2)); [field; neq0|]. rewrite H. field; neq0.
+  - transitivity (x1 / z1 * (z1 * z2)); [field; neq0|]. rewrite H. field; neq0.
+Qed.
+
+(** equality on projective / extended Edwards coordinates is equality of the affine points *)
+Theorem edp_eq_spec (x1 y1 z1 x2 y2 z2 : K) : z1 <> 0 -> z2 <> 0 ->
+  (edp_eq feqb (x1, y1, z1) (x2, y2, z2) = true <-> edp_aff (x1, y1, z1) = edp_aff (x2, y2, z2)).
+Proof.
+  intros H1 H2. cbv [edp_eq edp_aff]. rewrite andb_true_iff, !feqb_spec, !cross_eq by assumption.
+  split; [intros [-> ->]; reflexivity|intros E; inversion E; auto].
+Qed.
+
+Theorem ede_eq_spec (x1 y1 z1 t1 x2 y2 z2 t2 : K) : z1 <> 0 -> z2 <> 0 ->
+  (ede_eq feqb (x1, y1, z1, t1) (x2, y2, z2, t2) = true <-> ede_aff (x1, y1, z1, t1) = ede_aff (x2, y2, z2, t2)).
+Proof.
+  intros H1 H2. cbv [ede_eq ede_aff]. rewrite andb_true_iff, !feqb_spec, !cross_eq by assumption.
+  split; [intros [-> ->]; reflexivity|intros E; inversion E; auto].
+Qed.
+
+(* ---------- Weierstrass affine ---------- *)
+Theorem wa_add_comm (a : K) (P Q : option (pt2 K)) : wa_add feqb a P Q = wa_add feqb a Q P.
+Proof.
+  destruct P as [[x1 y1]|], Q as [[x2 y2]|]; try reflexivity.
+  cbv [wa_add wa_eq]. rewrite (feqb_sym x2 x1), (feqb_sym y2 y1).
+  destruct (feqb x1 x2) eqn:Ex, (feqb y1 y2) eqn:Ey; cbn [andb].
+  - apply feqb_spec in Ex, Ey. subst. reflexivity.
+  - reflexivity.
+  - apply feqb_false in Ex. f_equal. peq; field; split; apply fsub_neq0; auto.
+  - apply feqb_false in Ex. f_equal. peq; field; split; apply fsub_neq0; auto.
+Qed.
+
+Theorem wa_add_id (a : K) (P : option (pt2 K)) : wa_add feqb a None P = P /\ wa_add feqb a P None = P.
+Proof. destruct P as [[x y]|]; split; reflexivity. Qed.
+
+Theorem wa_add_inv_r (a : K) (P : option (pt2 K)) : c2 K <> 0 -> wa_add feqb a P (wa_inv P) = None.
+Proof.
+  intros H2. destruct P as [[x y]|]; [|reflexivity].
+  cbv [wa_add wa_inv wa_eq wa_dbl]. rewrite feqb_refl. cbn [andb].
+  destruct (feqb y (- y)) eqn:E; [|reflexivity].
+  apply feqb_spec in E.
+  assert (Hy : y = 0).
+  { apply (fmul_eq0 K (c2 K) y); [|exact H2]. cbv [c2]. transitivity (y + y); [ring|]. rewrite E at 2. ring. }
+  rewrite (proj2 (feqb_spec y 0) Hy). reflexivity.
+Qed.
+
+Theorem wa_add_closed_generic (a b x1 y1 x2 y2 : K) :
+  y1 * y1 = x1 * x1 * x1 + a * x1 + b -> y2 * y2 = x2 * x2 * x2 + a * x2 + b -> x1 <> x2 ->
+  exists x3 y3, wa_add feqb a (Some (x1, y1)) (Some (x2, y2)) = Some (x3, y3) /\
+                y3 * y3 = x3 * x3 * x3 + a * x3 + b.
+Proof.
+  intros H1 H2 Hx. cbv [wa_add wa_eq].
+  rewrite (proj2 (feqb_false x1 x2) Hx). cbn [andb].
+  eexists; eexists; split; [reflexivity|].
+  assert (Hd : x1 - x2 <> 0) by (apply fsub_neq0; auto).
+  field_simplify_eq; [|exact Hd]. nsatz.
+Qed.
+
+Theorem wa_dbl_closed (a b x y : K) :
+  c2 K <> 0 -> y * y = x * x * x + a * x + b -> y <> 0 ->
+  exists x3 y3, wa_dbl feqb a (Some (x, y)) = Some (x3, y3) /\ y3 * y3 = x3 * x3 * x3 + a * x3 + b.
+Proof.
+  intros H2 H1 Hy. cbv [wa_dbl]. rewrite (proj2 (feqb_false y 0) Hy).
+  eexists; eexists; split; [reflexivity|].
+  cbv [c2 c3] in *.
+  field_simplify_eq; [|neq0]. nsatz.
+Qed.
+
+(** the same-point branch of operation is operation2, the opposite-point branch is the identity *)
+Theorem wa_add_same (a : K) (P : pt2 K) : wa_add feqb a (Some P) (Some P) = wa_dbl feqb a (Some P).
+Proof. destruct P as [x y]. cbv [wa_add wa_eq]. rewrite !feqb_refl. reflexivity. Qed.
+
+(* ---------- Weierstrass Jacobian ---------- *)
+Lemma feqb_f (a b : K) : a <> b -> feqb a b = false.
+Proof. apply feqb_false. Qed.
+
+Lemma jac_h_neq0 (x1 z1 x2 z2 : K) : z1 <> 0 -> z2 <> 0 ->
+  x1 / (z1 * z1) <> x2 / (z2 * z2) -> x2 * (z1 * z1) - x1 * (z2 * z2) <> 0.
+Proof.
+  intros H1 H2 Hx H. apply Hx. apply fsub_eq0 in H.
+  transitivity (x1 * (z2 * z2) / (z1 * z1 * (z2 * z2))); [field; neq0|]. rewrite <- H. field; neq0.
+Qed.
+
+Theorem wj_add_refines_generic (a x1 y1 z1 x2 y2 z2 : K) :
+  c2 K <> 0 -> z1 <> 0 -> z2 <> 0 -> x1 / (z1 * z1) <> x2 / (z2 * z2) ->
+  wj_aff feqb (wj_add feqb (x1, y1, z1) (x2, y2, z2))
+  = wa_add feqb a (wj_aff feqb (x1, y1, z1)) (wj_aff feqb (x2, y2, z2)).
+Proof.
+  intros H2 Hz1 Hz2 Hx. pose proof (jac_h_neq0 _ _ _ _ Hz1 Hz2 Hx) as Hh.
+  cbv [wj_add wj_aff wa_add wa_eq].
+  rewrite (feqb_f z1 0 Hz1), (feqb_f z2 0 Hz2), (feqb_f _ 0 Hh), (feqb_f _ _ Hx). cbn [andb].
+  assert (Hzz : (z1 + z2) * (z1 + z2) - z1 * z1 - z2 * z2 <> 0).
+  { replace ((z1 + z2) * (z1 + z2) - z1 * z1 - z2 * z2) with (c2 K * (z1 * z2)) by (cbv [c2]; ring). neq0. }
+  assert (Hz3 : ((z1 + z2) * (z1 + z2) - z1 * z1 - z2 * z2) * (x2 * (z1 * z1) - x1 * (z2 * z2)) <> 0).
+  { apply fmul_neq0; assumption. }
+  rewrite (feqb_f _ 0 Hz3).
+  assert (Hh' : x1 * (z2 * z2) - x2 * (z1 * z1) <> 0).
+  { intros H. apply Hh. apply fsub_eq0 in H. rewrite H. ring. }
+  cbv [c2] in *.
+  f_equal. peq; field; neq0.
+Qed.
+
+Theorem wj_dbl_refines (x y z : K) :
+  c2 K <> 0 -> z <> 0 -> y <> 0 ->
+  wj_aff feqb (wj_dbl (x, y, z)) = wa_dbl feqb 0 (wj_aff feqb (x, y, z)).
+Proof.
+  intros H2 Hz Hy. cbv [wj_dbl wj_aff wa_dbl].
+  assert (Hz2 : c2 K * y * z <> 0) by neq0.
+  assert (Hy' : y / (z * z * z) <> 0).
+  { intros H. apply Hy. transitivity (y / (z * z * z) * (z * z * z)); [field; neq0|]. rewrite H. ring. }
+  rewrite (feqb_f z 0 Hz), (feqb_f _ 0 Hz2), (feqb_f _ 0 Hy').
+  cbv [c2 c3 c8] in *.
+  f_equal. peq; field; neq0.
+Qed.
+
+(** the h = 0 and r = 0 branch: same affine point => operation2(pt1) *)
+Theorem wj_add_same (x1 y1 z1 x2 y2 z2 : K) :
+  z1 <> 0 -> z2 <> 0 ->
+  x1 / (z1 * z1) = x2 / (z2 * z2) -> y1 / (z1 * z1 * z1) = y2 / (z2 * z2 * z2) ->
+  wj_add feqb (x1, y1, z1) (x2, y2, z2) = wj_dbl (x1, y1, z1).
+Proof.
+  intros Hz1 Hz2 Hx Hy. cbv [wj_add].
+  rewrite (feqb_f z1 0 Hz1), (feqb_f z2 0 Hz2).
+  assert (Hh : x2 * (z1 * z1) - x1 * (z2 * z2) = 0).
+  { transitivity ((x2 / (z2 * z2) - x1 / (z1 * z1)) * (z1 * z1 * (z2 * z2))); [field; neq0|]. rewrite Hx. ring. }
+  assert (Hr : c2 K * (y2 * z1 * (z1 * z1) - y1 * z2 * (z2 * z2)) = 0).
+  { transitivity (c2 K * ((y2 / (z2 * z2 * z2) - y1 / (z1 * z1 * z1)) * (z1 * z1 * z1 * (z2 * z2 * z2)))); [field; neq0|].
+    rewrite Hy. ring. }
+  rewrite (proj2 (feqb_spec _ 0) Hh), (proj2 (feqb_spec _ 0) Hr). reflexivity.
+Qed.
+
+(** the h = 0 and r <> 0 case: opposite points => z3 = 0 (an identity representation) *)
+Theorem wj_add_opposite (x1 y1 z1 x2 y2 z2 : K) :
+  c2 K <> 0 -> z1 <> 0 -> z2 <> 0 ->
+  x1 / (z1 * z1) = x2 / (z2 * z2) -> y1 / (z1 * z1 * z1) <> y2 / (z2 * z2 * z2) ->
+  wj_aff feqb (wj_add feqb (x1, y1, z1) (x2, y2, z2)) = None.
+Proof.
+  intros H2 Hz1 Hz2 Hx Hy. cbv [wj_add].
+  rewrite (feqb_f z1 0 Hz1), (feqb_f z2 0 Hz2).
+  assert (Hh : x2 * (z1 * z1) - x1 * (z2 * z2) = 0).
+  { transitivity ((x2 / (z2 * z2) - x1 / (z1 * z1)) * (z1 * z1 * (z2 * z2))); [field; neq0|]. rewrite Hx. ring. }
+  assert (Hr : c2 K * (y2 * z1 * (z1 * z1) - y1 * z2 * (z2 * z2)) <> 0).
+  { apply fmul_neq0; [exact H2|]. intros H. apply Hy. apply fsub_eq0 in H.
+    transitivity (y1 * z2 * (z2 * z2) / (z1 * z1 * z1 * (z2 * z2 * z2))); [field; neq0|]. rewrite <- H. field; neq0. }
+  rewrite (feqb_f _ 0 Hr), andb_false_r. cbv [wj_aff]. rewrite Hh.
+  replace (((z1 + z2) * (z1 + z2) - z1 * z1 - z2 * z2) * 0) with 0 by ring.
+  rewrite feqb_refl. reflexivity.
+Qed.
+
+(* ---------- Weierstrass projective (complete formulas, a = 0) ---------- *)
+Theorem wp_dbl_refines (b x y z : K) :
+  c2 K <> 0 -> z <> 0 -> y <> 0 -> y * y * z = x * x * x + b * (z * z * z) ->
+  wp_aff feqb (wp_dbl b (x, y, z)) = wa_dbl feqb 0 (wp_aff feqb (x, y, z)).
+Proof.
+  intros H2 Hz Hy Hc. cbv [wp_dbl wp_aff wa_dbl].
+  assert (Hz2 : c8 K * (y * y) * (y * z) <> 0) by (cbv [c8]; neq0).
+  assert (Hy' : y / z <> 0).
+  { intros H. apply Hy. transitivity (y / z * z); [field; neq0|]. rewrite H. ring. }
+  rewrite (feqb_f z 0 Hz), (feqb_f _ 0 Hz2), (feqb_f _ 0 Hy').
+  cbv [c2 c3 c8] in *.
+  f_equal. peq; (field_simplify_eq; [|neq0]); nsatz.
+Qed.
+End Thms.
+
+(** ------------------------------------------------------------------------------------------
+    Toy curves over Z_p: the full group laws (closure, associativity, identity, inverse,
+    commutativity) and the agreement of the coordinate systems, by exhaustive computation over
+    ALL points (and all projective scalings).  Bounds are in the statements ([In _ toy_...]);
+    [ed_points_complete] / [w_points_complete] show the enumerations are all the curve points. *)
+Section Toy.
+Local Open Scope Z_scope.
+
+Definition all_zp (p : Z) : list (ZpOps p) := map (fun k => mkZp p (Z.of_nat k)) (seq 0 (Z.to_nat p)).
+Definition nonzero_zp (p : Z) : list (ZpOps p) := map (fun k => mkZp p (Z.of_nat k)) (seq 1 (Z.to_nat p - 1)).
+
+Lemma all_zp_complete p (x : Zp p) : 0 < p -> In x (all_zp p).
+Proof.
+  intros Hp. unfold all_zp. apply in_map_iff. exists (Z.to_nat (zval x)).
+  pose proof (zval_red p x) as Hr. pose proof (Z.mod_pos_bound (zval x) p Hp) as Hb. rewrite Hr in Hb.
+  split.
+  - apply Zp_eq. rewrite zval_mkZp, Z2Nat.id by lia. exact Hr.
+  - apply in_seq. lia.
+Qed.
+
+Lemma zeqb_spec p (a b : Zp p) : zeqb p a b = true <-> a = b.
+Proof. unfold zeqb. rewrite Z.eqb_eq. split; [apply Zp_eq|intros ->; reflexivity]. Qed.
+
+Definition pt2_eqb p (P Q : pt2 (ZpOps p)) : bool := zeqb p (fst P) (fst Q) && zeqb p (snd P) (snd Q).
+Lemma pt2_eqb_spec p P Q : pt2_eqb p P Q = true <-> P = Q.
+Proof.
+  destruct P as [x1 y1], Q as [x2 y2]. unfold pt2_eqb. cbn [fst snd].
+  rewrite andb_true_iff, !zeqb_spec. split; [intros [-> ->]; reflexivity|intros E; inversion E; auto].
+Qed.
+Definition opt_eqb p (P Q : option (pt2 (ZpOps p))) : bool :=
+  match P, Q with None, None => true | Some P, Some Q => pt2_eqb p P Q | _, _ => false end.
+Lemma opt_eqb_spec p P Q : opt_eqb p P Q = true <-> P = Q.
+Proof.
+  destruct P as [P|], Q as [Q|]; cbn [opt_eqb]; try (split; discriminate); [|split; reflexivity].
+  rewrite pt2_eqb_spec. split; [intros ->; reflexivity|intros E; inversion E; auto].
+Qed.
+
+Definition pairs p : list (pt2 (ZpOps p)) := list_prod (all_zp p) (all_zp p).
+Definition ed_points p (a d : Z) : list (pt2 (ZpOps p)) := filter (ed_on (zeqb p) (zk p a) (zk p d)) (pairs p).
+Definition w_points p (a b : Z) : list (option (pt2 (ZpOps p))) :=
+  None :: map Some (filter (w_on (zeqb p) (zk p a) (zk p b)) (pairs p)).
+
+Lemma ed_points_complete p a d P : 0 < p ->
+  (In P (ed_points p a d) <-> ed_on (zeqb p) (zk p a) (zk p d) P = true).
+Proof.
+  intros Hp. unfold ed_points. rewrite filter_In. split; [intros [_ H]; exact H|intros H; split; [|exact H]].
+  destruct P as [x y]. apply in_prod; apply all_zp_complete; exact Hp.
+Qed.
+
+Lemma w_points_complete p a b P : 0 < p ->
+  (In P (w_points p a b) <-> match P with None => True | Some Q => w_on (zeqb p) (zk p a) (zk p b) Q = true end).
+Proof.
+  intros Hp. unfold w_points. cbn [In]. destruct P as [[x y]|].
+  - rewrite in_map_iff. split.
+    + intros [H|[Q [E H]]]; [discriminate|]. inversion E; subst. apply filter_In in H. apply H.
+    + intros H. right. exists (x, y). split; [reflexivity|]. apply filter_In. split; [|exact H].
+      apply in_prod; apply all_zp_complete; exact Hp.
+  - split; auto.
+Qed.
+
+(** all triples: closure, commutativity, associativity, identity, inverse *)
+Definition ed_toy_check (c : Z * Z * Z) : bool :=
+  let '(p, a, d) := c in
+  let pts := ed_points p a d in
+  let add := eda_add (zk p a) (zk p d) in
+  forallb (fun P =>
+    pt2_eqb p (add P eda_id) P && pt2_eqb p (add eda_id P) P &&
+    pt2_eqb p (add P (eda_inv P)) eda_id && ed_on (zeqb p) (zk p a) (zk p d) (eda_inv P) &&
+    forallb (fun Q =>
+      ed_on (zeqb p) (zk p a) (zk p d) (add P Q) && pt2_eqb p (add P Q) (add Q P) &&
+      forallb (fun R => pt2_eqb p (add (add P Q) R) (add P (add Q R))) pts) pts) pts.
+
+Definition w_toy_check (c : Z * Z * Z) : bool :=
+  let '(p, a, b) := c in
+  let pts := w_points p a b in
+  let add := wa_add (zeqb p) (zk p a) in
+  let on := fun P => match P with None => true | Some Q => w_on (zeqb p) (zk p a) (zk p b) Q end in
+  forallb (fun P =>
+    opt_eqb p (add P None) P && opt_eqb p (add None P) P &&
+    opt_eqb p (add P (wa_inv P)) None && on (wa_inv P) &&
+    opt_eqb p (add P P) (wa_dbl (zeqb p) (zk p a) P) &&
+    forallb (fun Q =>
+      on (add P Q) && opt_eqb p (add P Q) (add Q P) &&
+      forallb (fun R => opt_eqb p (add (add P Q) R) (add P (add Q R))) pts) pts) pts.
+
+Definition toy_ed : list (Z * Z * Z) := [(13, 1, 2); (13, 12, 2); (17, 16, 3); (11, 1, 2)].
+Definition toy_edp : list (Z * Z * Z) := [(13, 1, 2); (13, 12, 2); (11, 1, 2)].
+Definition toy_ed_ext : list (Z * Z * Z) := [(13, 12, 2)].                       (* a = -1 *)
+Definition toy_w : list (Z * Z * Z) := [(7, 0, 3); (13, 0, 7); (13, 0, 2); (13, 0, 4); (13, 2, 4); (13, 1, 1); (13, 0, 1)].
+Definition toy_w0 : list (Z * Z * Z) := [(7, 0, 3); (13, 0, 7); (13, 0, 2)]. (* a = 0, odd order *)
+Definition toy_wj : list (Z * Z * Z) := [(7, 0, 3); (13, 0, 7); (13, 0, 1)].           (* a = 0 *)
+
+(** coordinate systems: every scaling of every pair of points *)
+Definition edp_toy_check (c : Z * Z * Z) : bool :=
+  let '(p, a, d) := c in
+  let pts := ed_points p a d in
+  let A := zk p a in let D := zk p d in
+  let F := ZpOps p in
+  let lift := fun (P : pt2 F) (z : F) => (fmul F (fst P) z, fmul F (snd P) z, z) in
+  forallb (fun P => forallb (fun z1 =>
+    pt2_eqb p (edp_aff (edp_inv (lift P z1))) (eda_inv P) &&
+    pt2_eqb p (edp_aff (edp_norm (lift P z1))) P &&
+    forallb (fun Q => forallb (fun z2 =>
+      pt2_eqb p (edp_aff (edp_add A D (lift P z1) (lift Q z2))) (eda_add A D P Q) &&
+      Bool.eqb (edp_eq (zeqb p) (lift P z1) (lift Q z2)) (pt2_eqb p P Q)) (nonzero_zp p)) pts) (nonzero_zp p)) pts.
+
+Definition ede_toy_check (c : Z * Z * Z) : bool :=
+  let '(p, a, d) := c in
+  let pts := ed_points p a d in
+  let A := zk p a in let D := zk p d in
+  let F := ZpOps p in
+  let lift := fun (P : pt2 F) (z : F) => (fmul F (fst P) z, fmul F (snd P) z, z, fmul F (fmul F (fst P) (snd P)) z) in
+  forallb (fun P => forallb (fun z1 =>
+    pt2_eqb p (ede_aff (ede_inv (lift P z1))) (eda_inv P) &&
+    pt2_eqb p (ede_aff (ede_norm (lift P z1))) P &&
+    pt2_eqb p (ede_aff (ede_dbl D (lift P z1))) (eda_add A D P P) &&
+    forallb (fun Q => forallb (fun z2 =>
+      pt2_eqb p (ede_aff (ede_add D (lift P z1) (lift Q z2))) (eda_add A D P Q) &&
+      Bool.eqb (ede_eq (zeqb p) (lift P z1) (lift Q z2)) (pt2_eqb p P Q)) (nonzero_zp p)) pts) (nonzero_zp p)) pts.
+
+Definition wp_lifts p (P : option (pt2 (ZpOps p))) : list (pt3 (ZpOps p)) :=
+  let F := ZpOps p in
+  match P with
+  | None => map (fun y => (f0 F, y, f0 F)) (nonzero_zp p)
+  | Some (x, y) => map (fun z => (fmul F x z, fmul F y z, z)) (nonzero_zp p)
+  end.
+Definition wj_lifts p (P : option (pt2 (ZpOps p))) : list (pt3 (ZpOps p)) :=
+  let F := ZpOps p in
+  match P with
+  | None => (f0 F, f1 F, f0 F) :: map (fun t => (fmul F t t, fmul F t (fmul F t t), f0 F)) (nonzero_zp p)
+  | Some (x, y) => map (fun z => (fmul F x (fmul F z z), fmul F y (fmul F z (fmul F z z)), z)) (nonzero_zp p)
+  end.
+
+Definition wp_toy_check (c : Z * Z * Z) : bool :=
+  let '(p, a, b) := c in
+  let pts := w_points p a b in
+  let A := zk p a in let B := zk p b in
+  forallb (fun P => forallb (fun P' =>
+    opt_eqb p (wp_aff (zeqb p) (wp_inv P')) (wa_inv P) &&
+    opt_eqb p (wp_aff (zeqb p) (wp_norm (zeqb p) P')) P &&
+    opt_eqb p (wp_aff (zeqb p) (wp_dbl B P')) (wa_dbl (zeqb p) A P) &&
+    forallb (fun Q => forallb (fun Q' =>
+      opt_eqb p (wp_aff (zeqb p) (wp_add B P' Q')) (wa_add (zeqb p) A P Q) &&
+      Bool.eqb (wp_eq (zeqb p) P' Q') (opt_eqb p P Q)) (wp_lifts p Q)) pts) (wp_lifts p P)) pts.
+
+Definition wj_toy_check (c : Z * Z * Z) : bool :=
+  let '(p, a, b) := c in
+  let pts := w_points p a b in
+  let A := zk p a in
+  forallb (fun P => forallb (fun P' =>
+    opt_eqb p (wj_aff (zeqb p) (wj_inv P')) (wa_inv P) &&
+    opt_eqb p (wj_aff (zeqb p) (wj_norm (zeqb p) P')) P &&
+    opt_eqb p (wj_aff (zeqb p) (wj_dbl P')) (wa_dbl (zeqb p) A P) &&
+    forallb (fun Q => forallb (fun Q' =>
+      opt_eqb p (wj_aff (zeqb p) (wj_add (zeqb p) P' Q')) (wa_add (zeqb p) A P Q) &&
+      Bool.eqb (wj_eq (zeqb p) P' Q') (opt_eqb p P Q)) (wj_lifts p Q)) pts) (wj_lifts p P)) pts.
+
+Lemma toy_ed_ok : forallb ed_toy_check toy_ed = true.
+Proof. vm_compute. reflexivity. Qed.
+Lemma toy_w_ok : forallb w_toy_check toy_w = true.
+Proof. vm_compute. reflexivity. Qed.
+Lemma toy_edp_ok : forallb edp_toy_check toy_edp = true.
+Proof. vm_compute. reflexivity. Qed.
+Lemma toy_ede_ok : forallb ede_toy_check toy_ed_ext = true.
+Proof. vm_compute. reflexivity. Qed.
+Lemma toy_wp_ok : forallb wp_toy_check toy_w0 = true.
+Proof. vm_compute. reflexivity. Qed.
+Lemma toy_wj_ok : forallb wj_toy_check toy_wj = true.
+Proof. vm_compute. reflexivity. Qed.
+(** the extended-coordinate formulas are NOT a model of the curve when a <> -1 (Ed448 has a = 1) *)
+Lemma toy_ede_a1_refuted : ede_toy_check (13, 1, 2) = false.
+Proof. vm_compute. reflexivity. Qed.
+
+(** the complete projective formulas are not complete on a curve of even order (built-in curves
+    have prime order) *)
+Lemma toy_wp_even_order_refuted : wp_toy_check (13, 0, 1) = false.
+Proof. vm_compute. reflexivity. Qed.
+
+Lemma ed_toy_sound p a d : ed_toy_check (p, a, d) = true ->
+  let add := eda_add (zk p a) (zk p d) in
+  let on := ed_on (zeqb p) (zk p a) (zk p d) in
+  forall P Q R, In P (ed_points p a d) -> In Q (ed_points p a d) -> In R (ed_points p a d) ->
+    add P eda_id = P /\ add eda_id P = P /\ add P (eda_inv P) = eda_id /\ on (eda_inv P) = true /\
+    on (add P Q) = true /\ add P Q = add Q P /\ add (add P Q) R = add P (add Q R).
+Proof.
+  intros H add on P Q R HP HQ HR. unfold ed_toy_check in H. rewrite forallb_forall in H.
+  specialize (H P HP). rewrite !andb_true_iff in H. destruct H as [[[[H1 H2] H3] H4] H5].
+  rewrite forallb_forall in H5. specialize (H5 Q HQ). rewrite !andb_true_iff in H5.
+  destruct H5 as [[H6 H7] H8]. rewrite forallb_forall in H8. specialize (H8 R HR).
+  apply pt2_eqb_spec in H1, H2, H3, H7, H8. repeat split; assumption.
+Qed.
+
+Lemma w_toy_sound p a b : 0 < p -> w_toy_check (p, a, b) = true ->
+  let add := wa_add (zeqb p) (zk p a) in
+  forall P Q R, In P (w_points p a b) -> In Q (w_points p a b) -> In R (w_points p a b) ->
+    add P None = P /\ add None P = P /\ add P (wa_inv P) = None /\ In (wa_inv P) (w_points p a b) /\
+    add P P = wa_dbl (zeqb p) (zk p a) P /\
+    In (add P Q) (w_points p a b) /\ add P Q = add Q P /\ add (add P Q) R = add P (add Q R).
+Proof.
+  intros Hp H add P Q R HP HQ HR.
+  unfold w_toy_check in H. rewrite forallb_forall in H.
+  specialize (H P HP). rewrite !andb_true_iff in H. destruct H as [[[[[H1 H2] H3] H4] H4'] H5].
+  rewrite forallb_forall in H5. specialize (H5 Q HQ). rewrite !andb_true_iff in H5.
+  destruct H5 as [[H6 H7] H8]. rewrite forallb_forall in H8. specialize (H8 R HR).
+  apply opt_eqb_spec in H1, H2, H3, H4', H7, H8.
+  repeat split; try assumption.
+  - apply w_points_complete; [exact Hp|]. destruct (wa_inv P); auto.
+  - apply w_points_complete; [exact Hp|]. subst add. destruct (wa_add (zeqb p) (zk p a) P Q); auto.
+Qed.
+
+(** assoc_toy: group laws on ALL points of the toy Edwards / Weierstrass curves (affine) *)
+Theorem assoc_toy_edwards : forall p a d, In (p, a, d) toy_ed ->
+  let add := eda_add (zk p a) (zk p d) in
+  let on := ed_on (zeqb p) (zk p a) (zk p d) in
+  forall P Q R, In P (ed_points p a d) -> In Q (ed_points p a d) -> In R (ed_points p a d) ->
+    add P eda_id = P /\ add eda_id P = P /\ add P (eda_inv P) = eda_id /\ on (eda_inv P) = true /\
+    on (add P Q) = true /\ add P Q = add Q P /\ add (add P Q) R = add P (add Q R).
+Proof.
+  intros p a d Hc. apply ed_toy_sound. revert Hc. apply (proj1 (forallb_forall _ _) toy_ed_ok).
+Qed.
+
+Theorem assoc_toy_weierstrass : forall p a b, In (p, a, b) toy_w ->
+  let add := wa_add (zeqb p) (zk p a) in
+  forall P Q R, In P (w_points p a b) -> In Q (w_points p a b) -> In R (w_points p a b) ->
+    add P None = P /\ add None P = P /\ add P (wa_inv P) = None /\ In (wa_inv P) (w_points p a b) /\
+    add P P = wa_dbl (zeqb p) (zk p a) P /\
+    In (add P Q) (w_points p a b) /\ add P Q = add Q P /\ add (add P Q) R = add P (add Q R).
+Proof.
+  intros p a b Hc. apply w_toy_sound.
+  - unfold toy_w in Hc. repeat (destruct Hc as [Hc|Hc]; [inversion Hc; lia|]). destruct Hc.
+  - revert Hc. apply (proj1 (forallb_forall _ _) toy_w_ok).
+Qed.
+
+(** cross-coordinate agreement on toy curves: the statement is the boolean check itself
+    (inversion, normalize, doubling, addition and equality of every scaling of every pair) *)
+Theorem toy_coords_agree :
+  (forall c, In c toy_edp -> edp_toy_check c = true) /\
+  (forall c, In c toy_ed_ext -> ede_toy_check c = true) /\
+  (forall c, In c toy_w0 -> wp_toy_check c = true) /\
+  (forall c, In c toy_wj -> wj_toy_check c = true).
+Proof.
+  repeat split; apply forallb_forall;
+    [exact toy_edp_ok|exact toy_ede_ok|exact toy_wp_ok|exact toy_wj_ok].
+Qed.
+End Toy.
